@@ -29,7 +29,7 @@ def gates(tier):
     return {'calls': 40000, 'returned_results': 25000, 'raised': 500, 'long_form_results': 1200, 'entries_checked': 8000,
             'partial_grades': 800, 'attempt_credit_calls': 1500, 'debug_on_results': 800, 'debug_off_results': 4000,
             'class:StringGrader': 300, 'class:FormulaGrader': 300, 'class:NumericalGrader': 300, 'class:MatrixGrader': 300,
-            'class:SingleListGrader': 300, 'class:IntervalGrader': 300, 'class:SumGrader': 200, 'class:ListGrader': 800}
+            'class:SingleListGrader': 300, 'class:IntervalGrader': 300, 'class:SumGrader': 200, 'class:ListGrader': 800, 'shared_debug_calls': 800}
 
 
 def has_pin(desc):
@@ -151,7 +151,63 @@ def inputs_for(rng, case, k):
     return out
 
 
+def run_shared_debug(ctx):
+    """debug=True on one grader must not leak into other graders that share a subgrader object with it."""
+    import mitxgraders as M
+    rng = ctx.rng
+    for i in range(ctx.n(320, 4000)):
+        kind = rng.choice(['string', 'formula', 'nested'])
+        if kind == 'string':
+            sub = M.StringGrader()
+            sub_call = ('cat', 'cat')
+        elif kind == 'formula':
+            sub = M.FormulaGrader(variables=['x'], sample_from={'x': lib.Scripted(values=[GG.CANARY_SAMPLE] * 5)})
+            sub_call = ('x+1', 'x+1')
+        else:
+            sub = M.ListGrader(subgraders=M.StringGrader(), ordered=True)
+            sub_call = None
+        if kind == 'nested':
+            dbg = M.ListGrader(answers=[['a', 'b'], ['c', 'd']], subgraders=sub, grouping=[1, 1, 2, 2], debug=True)
+            plain = M.ListGrader(answers=[['a', 'b'], ['c', 'd']], subgraders=sub, grouping=[1, 1, 2, 2])
+            dbg_in, plain_in = ['a', 'b', 'c', 'd'], ['a', 'b', 'c', 'x']
+        else:
+            a = ['cat', 'dog'] if kind == 'string' else ['x+1', 'x^2']
+            dbg = M.ListGrader(answers=a, subgraders=sub, debug=True)
+            plain = M.ListGrader(answers=a, subgraders=sub)
+            dbg_in = plain_in = list(a)
+        order = ['dbg', 'plain', 'sub', 'dbg', 'sub', 'plain']
+        rng.shuffle(order)
+        history = []
+        for who in order:
+            if who == 'sub' and sub_call is None:
+                continue
+            if who == 'dbg':
+                out = lib.call(ctx, dbg, None, list(dbg_in))
+                debug = True
+            elif who == 'plain':
+                out = lib.call(ctx, plain, None, list(plain_in))
+                debug = False
+            else:
+                out = lib.call(ctx, sub, sub_call[0], sub_call[1])
+                debug = False
+            ctx.ev()
+            ctx.count('calls')
+            ctx.count('shared_debug_calls')
+            history.append(who)
+            if not out.returned:
+                ctx.count('raised')
+                continue
+            ctx.count('returned_results')
+            case = {'cls': 'ListGrader' if who != 'sub' else type(sub).__name__, 'desc': {'class': kind, 'shared_subgrader': True}}
+            inp = dbg_in if who == 'dbg' else plain_in if who == 'plain' else [sub_call[1]]
+            check_result(ctx, case, out.value, inp, debug,
+                         {'scenario': 'subgrader object shared between a debug=True list, a plain list and standalone use',
+                          'kind': kind, 'history': list(history), 'outcome': out.brief()})
+        ctx.nontrivial(['shared_debug', kind, order])
+
+
 def run(ctx):
+    run_shared_debug(ctx)
     rng = ctx.rng
     F = GG.Factory(rng)
     scheds = schedules()
